@@ -254,14 +254,14 @@ def plan(tier):
         # no contender: kill everywhere
         items.append(('kill', v if v != 'timed' else 'block', [], 'victim_first', 0, None))
         cont_sets = [['block'], ['timed_long'], ['timed'], ['block', 'block']] if q else \
-            [['block'], ['timed_long'], ['timed'], ['block', 'block'], ['block', 'timed_long'], ['inherited']]
+            [['block'], ['timed_long'], ['timed'], ['block', 'block'], ['block', 'timed_long']]
         for cs in cont_sets:
             for order in ('victim_first', 'contender_first'):
                 if v in ('timed', 'timed_long') and order == 'victim_first':
                     continue          # a timed victim needs the lock busy first
                 nshard = 4
                 for s in range(nshard):
-                    items.append(('kill', v, cs, order, 0 if q else 1, (s, nshard)))
+                    items.append(('kill', v, cs, order, 0 if q or len(cs) > 1 else 1, (s, nshard)))
     # C02 cross-process clause: no kill, 2..3 processes, all interleavings
     for progs in (['block', 'block'], ['block', 'timed_long'], ['with', 'ctx'], ['nested', 'nb'],
                   ['block', 'block', 'block'], ['inherited', 'block']):
